@@ -6,7 +6,7 @@
 #   2. without the change: the demonstration passes.
 # Writes /tmp/seed-<id>-out/confirm.txt.
 id="$1"; crate="$2"; filter="$3"; shift 3
-wt=/tmp/seed-$id; out=/tmp/seed-$id-out/confirm.txt
+wt=/tmp/${SEED_PREFIX:-seed}-$id; out=/tmp/${SEED_PREFIX:-seed}-$id-out/confirm.txt
 cd "$wt" || exit 2
 export CARGO_NET_OFFLINE=true CARGO_TARGET_DIR=$wt/target
 {
@@ -14,9 +14,9 @@ export CARGO_NET_OFFLINE=true CARGO_TARGET_DIR=$wt/target
   cargo test -p "$crate" --offline "$@" -- --skip tests::e2e 2>&1 | grep -E "^test result|FAILED|failed|panicked" | head -20
   echo "## with change: demonstration (expect FAIL)"
   cargo test -p "$crate" --offline "$@" -- "$filter" 2>&1 | grep -E "^test result|^test .*(ok|FAILED)" | head
-  git apply -R /tmp/seed-$id-out/patch.diff || echo "REVERT FAILED"
+  git apply -R /tmp/${SEED_PREFIX:-seed}-$id-out/patch.diff || echo "REVERT FAILED"
   echo "## without change: demonstration (expect ok)"
   cargo test -p "$crate" --offline "$@" -- "$filter" 2>&1 | grep -E "^test result|^test .*(ok|FAILED)" | head
-  git apply /tmp/seed-$id-out/patch.diff || echo "REAPPLY FAILED"
+  git apply /tmp/${SEED_PREFIX:-seed}-$id-out/patch.diff || echo "REAPPLY FAILED"
 } > "$out" 2>&1
 cat "$out"
